@@ -157,6 +157,31 @@ def run(ctx):
         for bad in (s[1:], s[:-1], s.replace(b"MUNGE:", b"MUNGE;"), b"MUNGE:" + s[6:-1] + b"!:", b"MUNGE:" + s[6:-1][:-1] + b":",
                     b"", b" ", b"\0", b"MUNGE::", b"MUNGE:====:"):
             probe("armor", bad)
+    # requests refused before anything is unpacked (announced length above the limit, truncated bodies, unknown types): the
+    # daemon may simply close; IF it answers a decode request, the answer is a failure reply like any other: everything reset
+    for t, what in ((rig.T_DEC_REQ, "decode"), (rig.T_ENC_REQ, "encode")):
+        for ln in ((1 << 20) + 1, 1 << 24, (1 << 31) - 1, 1 << 31, (1 << 32) - 1):
+            for tail in (b"", b"x" * 16):
+                h, b, rawrep, st = rig.transact(cr.d.sock, rig.hdr(t, 0, ln) + tail, timeout=8.0)
+                ctx.count(("oversize", t, ln, len(tail)))
+                classes["oversize"] = classes.get("oversize", 0) + 1
+                if h is None:
+                    continue
+                try:
+                    rr = rig.parse_dec_rsp(b) if h[2] == rig.T_DEC_RSP else None
+                    er = rig.parse_enc_rsp(b) if h[2] == rig.T_ENC_RSP else None
+                except rig.ParseError:
+                    fails.append({"why": "the reply to a %s request announcing %d bytes is malformed" % (what, ln), "kind": "oversize"})
+                    continue
+                if rr is not None:
+                    bad = reset_violation(rr) if rr["error_num"] != 0 else ["error_num=0"]
+                    if bad:
+                        fails.append({"why": "reply to a decode request refused as too long (%d bytes announced) is not a sanitised failure "
+                                             "reply: %s (error %d %r)" % (ln, ", ".join(bad), rr["error_num"], rr["error_str"]),
+                                      "raw_hex": (rig.hdr(t, 0, ln) + tail).hex(), "kind": "oversize"})
+                if er is not None and (er["error_num"] == 0 or er["data_len"] != 0):
+                    fails.append({"why": "reply to an encode request refused as too long (%d bytes announced) carries data or success" % ln,
+                                  "kind": "oversize"})
     # valid MAC, malformed interior (cipher none, minted in Python)
     now = cr.now
     base_inner = pyref.inner(salt=b"S" * 8, time0=now, uid=1234, gid=5678, data=b"interior-data")
